@@ -22,7 +22,6 @@ import (
 	"os"
 	"sort"
 	"strings"
-	"sync"
 	"testing"
 
 	"github.com/nspcc-dev/neofs-node/pkg/local_object_storage/blobstor/common"
@@ -36,12 +35,51 @@ import (
 	"pgregory.net/rapid"
 )
 
+// Concurrency of a race op is owned by the test: both engine.Put calls run in
+// their own goroutines but only one of them runs at a time, from one blob
+// write (faultstore Before hook) to the next; the generated schedule string
+// says whose turn it is. The engine code between two pauses of an actor (the
+// metabase update of the shard just written, the next shard's existence check,
+// the tombstone pre-check, the rollback) is thus interleaved with the other
+// actor's steps in every generated way, deterministically.
+type actor struct {
+	run               func()
+	started, finished bool
+	req, grant, done  chan struct{}
+}
+
+func newActor(run func()) *actor {
+	return &actor{run: run, req: make(chan struct{}), grant: make(chan struct{}), done: make(chan struct{})}
+}
+
+// pause is called from the actor's goroutine (inside a blob Put hook).
+func (a *actor) pause() { a.req <- struct{}{}; <-a.grant }
+
+// step lets the actor run until its next pause or its end.
+func (a *actor) step() {
+	if a.finished {
+		return
+	}
+	if !a.started {
+		a.started = true
+		go func() { defer close(a.done); a.run() }()
+	} else {
+		a.grant <- struct{}{}
+	}
+	select {
+	case <-a.req:
+	case <-a.done:
+		a.finished = true
+	}
+}
+
 const (
 	// fpExpired: the locked object's OWN expiration passes while the shard
 	// holding it does not know the lock (lock was accepted by other shards only).
 	fpExpired = "C08:expired-locked-object-hidden-without-local-lock"
-	// fpRace: concurrent lock and tombstone broadcast, lock accepted, object gone.
-	fpRace = "C08:race-lock-accepted-object-removed"
+	// fpRace: lock and tombstone broadcasts for one target interleave; the lock
+	// is accepted but the object is lost (at once or at the next GC pass).
+	fpRace = "C08:concurrent-lock-tombstone-not-atomic"
 
 	nObj   = 4 // regular object ids 0..3
 	nLock  = 4 // lock ids 4..7
@@ -57,6 +95,9 @@ type op struct {
 	Shard int    `json:"sh,omitempty"`
 	Mode  string `json:"m,omitempty"`
 	On    bool   `json:"on,omitempty"`
+	// Sched is the interleaving of a race op: 'T' lets the tombstone put run up
+	// to its next blob write, 'L' the lock put.
+	Sched string `json:"sched,omitempty"`
 }
 
 func (o op) String() string {
@@ -68,7 +109,7 @@ func (o op) String() string {
 	case "tomb":
 		return fmt.Sprintf("tomb(o%d)", o.ID)
 	case "race":
-		return fmt.Sprintf("race(lock o%d || tomb o%d)", o.ID, o.ID2)
+		return fmt.Sprintf("race(lock o%d || tomb o%d, schedule %s)", o.ID, o.ID2, o.Sched)
 	case "mode":
 		return fmt.Sprintf("mode(s%d,%s)", o.Shard, o.Mode)
 	case "failput":
@@ -131,41 +172,79 @@ func genHist(t *rapid.T, withObjExp, withRace bool) hist {
 			}
 		case i < nObj+nLock:
 			s.Kind = uni.Lock
-			s.Target = rapid.IntRange(0, nObj-1).Draw(t, "locktarget")
-			if rapid.IntRange(0, 2).Draw(t, "lockhasexp") != 0 {
-				s.Exp = rapid.IntRange(1, 7).Draw(t, "lockexp")
-			}
 		default:
 			s.Kind = uni.Tombstone
-			s.Target = rapid.IntRange(0, nObj-1).Draw(t, "tombtarget")
 			s.Exp = rapid.IntRange(3, maxEp+3).Draw(t, "tombexp")
 		}
 		h.Objs = append(h.Objs, s)
 	}
-	nops := rapid.IntRange(4, 18).Draw(t, "nops")
+	// Ops are drawn with a little abstract state so that locks aim at objects
+	// that were put and tombstones aim at locked objects most of the time; IDs
+	// of locks/tombstones are allocated on first use (later uses re-put them).
+	var (
+		put, locked []int
+		nl, nt      int
+	)
+	pick := func(pref []int, lbl string) int {
+		if len(pref) > 0 && rapid.IntRange(0, 9).Draw(t, lbl+"-pref") < 8 {
+			return rapid.SampledFrom(pref).Draw(t, lbl)
+		}
+		return rapid.IntRange(0, nObj-1).Draw(t, lbl)
+	}
+	newLock := func() int {
+		if nl < nLock && (nl == 0 || rapid.IntRange(0, 9).Draw(t, "newlock") < 8) {
+			i := nObj + nl
+			nl++
+			h.Objs[i].Target = pick(put, "locktarget")
+			if rapid.IntRange(0, 2).Draw(t, "lockhasexp") != 0 {
+				h.Objs[i].Exp = rapid.IntRange(1, 7).Draw(t, "lockexp")
+			}
+			locked = append(locked, h.Objs[i].Target)
+			return i
+		}
+		return nObj + rapid.IntRange(0, nl-1).Draw(t, "oldlock")
+	}
+	newTomb := func(pref []int) int {
+		if nt < nTomb && (nt == 0 || rapid.IntRange(0, 9).Draw(t, "newtomb") < 8) {
+			i := nObj + nLock + nt
+			nt++
+			h.Objs[i].Target = pick(pref, "tombtarget")
+			return i
+		}
+		return nObj + nLock + rapid.IntRange(0, nt-1).Draw(t, "oldtomb")
+	}
+	nops := rapid.IntRange(2, 14).Draw(t, "nops")
 	kinds := []string{"put", "put", "lock", "lock", "lock", "tomb", "tomb", "tomb", "mode", "mode", "mode", "failput", "gc", "gc", "epoch", "evac"}
 	if withRace {
-		kinds = append(kinds, "race")
+		kinds = append(kinds, "race", "race", "race")
 	}
 	for len(h.Ops) < nops {
 		o := op{K: rapid.SampledFrom(kinds).Draw(t, "op")}
+		if len(put) == 0 && rapid.IntRange(0, 9).Draw(t, "putfirst") < 8 {
+			o.K = "put"
+		}
 		switch o.K {
 		case "put":
 			o.ID = rapid.IntRange(0, nObj-1).Draw(t, "obj")
+			put = append(put, o.ID)
 		case "lock":
-			o.ID = nObj + rapid.IntRange(0, nLock-1).Draw(t, "lockid")
+			o.ID = newLock()
 		case "tomb":
-			o.ID = nObj + nLock + rapid.IntRange(0, nTomb-1).Draw(t, "tombid")
+			o.ID = newTomb(locked)
 		case "race":
-			o.ID = nObj + rapid.IntRange(0, nLock-1).Draw(t, "lockid")
-			// a tombstone aimed at the same target, if there is one
-			o.ID2 = nObj + nLock + rapid.IntRange(0, nTomb-1).Draw(t, "tombid")
-			for k := 0; k < nTomb; k++ {
+			o.ID = newLock()
+			// a tombstone aimed at the same target
+			o.ID2 = -1
+			for k := 0; k < nt; k++ {
 				if h.Objs[nObj+nLock+k].Target == h.Objs[o.ID].Target {
 					o.ID2 = nObj + nLock + k
 					break
 				}
 			}
+			if o.ID2 < 0 {
+				o.ID2 = newTomb([]int{h.Objs[o.ID].Target})
+			}
+			o.Sched = rapid.StringOfN(rapid.SampledFrom([]rune{'T', 'L'}), 8, 8, -1).Draw(t, "schedule")
 		case "mode":
 			o.Shard = rapid.IntRange(0, h.N-1).Draw(t, "shard")
 			o.Mode = rapid.SampledFrom([]string{"rw", "rw", "ro", "ro", "degro"}).Draw(t, "mode")
@@ -176,6 +255,72 @@ func genHist(t *rapid.T, withObjExp, withRace bool) hist {
 			o.Shard = rapid.IntRange(0, h.N-1).Draw(t, "shard")
 		}
 		h.Ops = append(h.Ops, o)
+	}
+	// Most histories also get the chain the property is about, merged into the
+	// random ops at random (order preserving) positions: a holder or another
+	// shard is made non-writable, a lock is put, (shards are restored), a
+	// tombstone for the same object is attempted, GC runs.
+	if rapid.IntRange(0, 9).Draw(t, "chain") < 7 {
+		tgt := rapid.IntRange(0, nObj-1).Draw(t, "chain-obj")
+		var chain []op
+		chain = append(chain, op{K: "put", ID: tgt})
+		sh := rapid.IntRange(0, h.N-1).Draw(t, "chain-shard")
+		if rapid.Bool().Draw(t, "chain-viafail") {
+			chain = append(chain, op{K: "failput", Shard: sh, On: true})
+		} else {
+			chain = append(chain, op{K: "mode", Shard: sh, Mode: rapid.SampledFrom([]string{"ro", "ro", "degro"}).Draw(t, "chain-mode")})
+		}
+		var li int
+		if nl < nLock {
+			li = nObj + nl
+			nl++
+			h.Objs[li].Target = tgt
+			if rapid.IntRange(0, 2).Draw(t, "lockhasexp") != 0 {
+				h.Objs[li].Exp = rapid.IntRange(1, 7).Draw(t, "lockexp")
+			}
+		} else {
+			li = nObj + rapid.IntRange(0, nLock-1).Draw(t, "oldlock")
+			tgt = h.Objs[li].Target
+			chain[0].ID = tgt
+		}
+		chain = append(chain, op{K: "lock", ID: li})
+		if rapid.IntRange(0, 3).Draw(t, "chain-restore") != 0 {
+			chain = append(chain, op{K: "failput", Shard: sh, On: false}, op{K: "mode", Shard: sh, Mode: "rw"})
+		}
+		ti := -1
+		for k := 0; k < nt; k++ {
+			if h.Objs[nObj+nLock+k].Target == tgt {
+				ti = nObj + nLock + k
+			}
+		}
+		if ti < 0 && nt < nTomb {
+			ti = nObj + nLock + nt
+			nt++
+			h.Objs[ti].Target = tgt
+		}
+		if ti >= 0 {
+			chain = append(chain, op{K: "tomb", ID: ti})
+		}
+		for k := 0; k < h.N; k++ {
+			chain = append(chain, op{K: "gc", Shard: k})
+		}
+		pos := make([]int, len(chain))
+		for i := range pos {
+			pos[i] = rapid.IntRange(0, len(h.Ops)).Draw(t, "chain-pos")
+		}
+		sort.Ints(pos)
+		var merged []op
+		ci := 0
+		for i := 0; i <= len(h.Ops); i++ {
+			for ci < len(chain) && pos[ci] == i {
+				merged = append(merged, chain[ci])
+				ci++
+			}
+			if i < len(h.Ops) {
+				merged = append(merged, h.Ops[i])
+			}
+		}
+		h.Ops = merged
 	}
 	return h
 }
@@ -214,7 +359,11 @@ type run struct {
 	// progress of the non-triviality rule per object: 1 = partial lock accepted,
 	// 2 = +tombstone attempt while live, 3 = +GC pass
 	stage map[int]int
-	viol  *violation
+	// raced[o]: o was the common target of interleaved lock/tombstone puts
+	raced   map[int]bool
+	raceLog string
+	races   map[int]string // op index -> blob write sequence of the race
+	viol    *violation
 }
 
 func (r *run) addr(i int) oid.Address { return uni.Addr(cnrIdx, i) }
@@ -256,6 +405,17 @@ func (r *run) fail(fp, format string, a ...any) {
 	}
 }
 
+// class returns the known-finding class a violation on object o belongs to.
+func (r *run) class(o int) string {
+	switch {
+	case r.objExpired(o):
+		return fpExpired
+	case r.raced[o]:
+		return fpRace
+	}
+	return ""
+}
+
 func (r *run) objExpired(o int) bool {
 	e := r.h.Objs[o].Exp
 	return e >= 0 && r.epoch > uint64(e)
@@ -267,10 +427,7 @@ func (r *run) checkAll(step string) {
 		if !r.live(o) || r.poisoned[o] != "" || r.viol != nil {
 			continue
 		}
-		fp := ""
-		if r.objExpired(o) {
-			fp = fpExpired
-		}
+		fp := r.class(o)
 		a := r.addr(o)
 		holders := r.e.Holders(a)
 		allDeg := len(holders) > 0
@@ -346,13 +503,17 @@ func errStr(err error) string {
 // noteOrder records the order in which shards saw the blob Put of address a.
 func (r *run) noteOrder(i int, a ...oid.Address) {
 	var p []string
+	r.raceLog = ""
 	for _, c := range r.e.TakeCalls() {
 		if c.Method != "Put" {
 			continue
 		}
-		for _, x := range a {
+		for j, x := range a {
 			if c.Addr == x {
 				p = append(p, fmt.Sprintf("%d", c.Shard))
+				if len(a) == 2 {
+					r.raceLog += fmt.Sprintf("%c@%d ", "LT"[j], c.Shard)
+				}
 			}
 		}
 	}
@@ -428,11 +589,7 @@ func (r *run) exec(i int, o op) {
 				r.labels["tomb-while-lock-knowers-degraded"] = true
 				r.poisoned[tgt] = "tombstone put while every shard knowing the lock had no metabase"
 			case err == nil:
-				fp := ""
-				if r.objExpired(tgt) {
-					fp = fpExpired
-				}
-				r.fail(fp, "%s: tombstone for locked object o%d was accepted (Put = nil); lock known on shards %v, modes %s", step, tgt, kn, r.modesStr())
+				r.fail(r.class(tgt), "%s: tombstone for locked object o%d was accepted (Put = nil); lock known on shards %v, modes %s", step, tgt, kn, r.modesStr())
 			}
 		}
 	case "race":
@@ -440,42 +597,69 @@ func (r *run) exec(i int, o op) {
 		tgt := r.h.Objs[lockIdx].Target
 		same := r.h.Objs[tombIdx].Target == tgt
 		pre, _, _ := r.e.Get(r.addr(tgt))
-		wasLive := r.live(tgt)
+		wasLive := r.live(tgt) && r.poisoned[tgt] == ""
+		var knBefore []int
+		if wasLive {
+			knBefore = r.knowers(tgt)
+		}
 		partial := !r.allWritable()
-		var (
-			wg         sync.WaitGroup
-			errL, errT error
-		)
+		var errL, errT error
+		aL := newActor(func() { errL = r.e.E.Put(ctx, r.objs[lockIdx], nil) })
+		aT := newActor(func() { errT = r.e.E.Put(ctx, r.objs[tombIdx], nil) })
+		byAddr := map[oid.Address]*actor{r.addr(lockIdx): aL, r.addr(tombIdx): aT}
+		for _, sh := range r.e.Sh {
+			sh.FS.SetBefore(func(m string, addrs []oid.Address) {
+				if m == "Put" && len(addrs) == 1 {
+					if a := byAddr[addrs[0]]; a != nil {
+						a.pause()
+					}
+				}
+			})
+		}
 		r.e.TakeCalls()
-		wg.Add(2)
-		go func() { defer wg.Done(); errL = r.e.E.Put(ctx, r.objs[lockIdx], nil) }()
-		go func() { defer wg.Done(); errT = r.e.E.Put(ctx, r.objs[tombIdx], nil) }()
-		wg.Wait()
-		r.noteOrder(i, r.addr(lockIdx), r.addr(tombIdx))
-		post, _, _ := r.e.Get(r.addr(tgt))
-		r.trace = append(r.trace, fmt.Sprintf("%s [%s] -> lock %s, tomb %s; target before %s after %s", step, r.modesStr(), errStr(errL), errStr(errT), pre, post))
-		r.labels["race"] = true
-		if same && pre == engx.OK && !wasLive && r.poisoned[tgt] == "" && !r.objExpired(tgt) {
-			r.labels["race-same-target-available"] = true
-			switch {
-			case errL == nil && errT == nil:
-				r.labels["race-both-accepted"] = true
-			case errL != nil && errT != nil:
-				r.labels["race-both-refused"] = true
-				if post != engx.OK {
-					r.labels["race-both-refused-target-unreadable"] = true
-				}
-			}
-			if errL == nil && len(r.knowers(tgt)) > 0 && post != engx.OK && !r.allHoldersNoMeta(tgt) {
-				r.fail(fpRace, "%s: lock accepted (Put = nil) concurrently with a tombstone, but the locked object o%d is %s afterwards (tomb Put = %s)", step, tgt, post, errStr(errT))
-				if r.viol != nil && r.viol.fp == fpRace {
-					r.poisoned[tgt] = "race"
-				}
+		for _, c := range o.Sched {
+			if c == 'T' {
+				aT.step()
+			} else {
+				aL.step()
 			}
 		}
-		if same && wasLive && r.poisoned[tgt] == "" && errT == nil && len(r.knowers(tgt)) > 0 {
-			// tombstone raced with a second lock while an earlier accepted lock was live
-			r.fail("", "%s: tombstone for locked object o%d was accepted (Put = nil)", step, tgt)
+		for !aT.finished {
+			aT.step()
+		}
+		for !aL.finished {
+			aL.step()
+		}
+		for _, sh := range r.e.Sh {
+			sh.FS.SetBefore(nil)
+		}
+		r.noteOrder(i, r.addr(lockIdx), r.addr(tombIdx))
+		post, _, _ := r.e.Get(r.addr(tgt))
+		r.trace = append(r.trace, fmt.Sprintf("%s [%s] -> lock %s, tomb %s; blob writes (L=lock,T=tomb @shard) %s; target before %s after %s",
+			step, r.modesStr(), errStr(errL), errStr(errT), r.raceLog, pre, post))
+		r.labels["race"] = true
+		r.races[i] = strings.TrimSpace(r.raceLog)
+		if same {
+			r.raced[tgt] = true
+			if pre == engx.OK && !wasLive {
+				r.labels["race-same-target-available"] = true
+				switch {
+				case errL == nil && errT == nil:
+					r.labels["race-both-accepted"] = true
+				case errL != nil && errT != nil:
+					r.labels["race-both-refused"] = true
+					if post != engx.OK {
+						r.labels["race-both-refused-target-unreadable"] = true
+					}
+				case errL == nil:
+					r.labels["race-lock-won"] = true
+				default:
+					r.labels["race-tomb-won"] = true
+				}
+			}
+			if wasLive && len(knBefore) > 0 && errT == nil {
+				r.fail(fpRace, "%s: tombstone for locked object o%d was accepted (Put = nil)", step, tgt)
+			}
 		}
 		if errL == nil {
 			r.acceptLock(i, lockIdx, partial)
@@ -541,7 +725,7 @@ func replay(h hist) (*run, error) {
 	defer e.Close()
 	e.LogCalls = true
 	r := &run{h: h, e: e, tracked: map[int][]lockRec{}, poisoned: map[int]string{}, orders: map[int]string{},
-		labels: map[string]bool{}, stage: map[int]int{}}
+		labels: map[string]bool{}, stage: map[int]int{}, raced: map[int]bool{}, races: map[int]string{}}
 	for _, s := range h.Objs {
 		r.objs = append(r.objs, uni.Build(s))
 	}
@@ -603,6 +787,9 @@ func check(t *rapid.T, rec *ev.Recorder, h hist) {
 				labels["known:"+r.viol.fp] = true
 				continue
 			}
+			if r.viol.fp != "" {
+				r.viol.msg = "[class " + r.viol.fp + "] " + r.viol.msg
+			}
 			t.Fatalf("C08 violated in replay %d/%d: %s\nhistory:\n%strace of the failing replay:\n  %s",
 				rep+1, R, r.viol.msg, h, strings.Join(r.trace, "\n  "))
 		}
@@ -642,4 +829,150 @@ func TestC08Race(t *testing.T) {
 		h := genHist(t, withObjExp, true)
 		check(t, rec, h)
 	})
+}
+
+// schedules returns all interleavings of nT 'T' steps and nL 'L' steps.
+func schedules(nT, nL int) []string {
+	if nT == 0 && nL == 0 {
+		return []string{""}
+	}
+	var res []string
+	if nT > 0 {
+		for _, s := range schedules(nT-1, nL) {
+			res = append(res, "T"+s)
+		}
+	}
+	if nL > 0 {
+		for _, s := range schedules(nT, nL-1) {
+			res = append(res, "L"+s)
+		}
+	}
+	return res
+}
+
+// TestC08RaceWindow enumerates ALL interleavings (at blob-write granularity)
+// of one lock broadcast and one tombstone broadcast for the same stored
+// object on 2 shards (thorough: also 3), for every placement of the object and
+// every AddShard order; the shard visiting orders of the two broadcasts come
+// from Go's map iteration, so every combination is re-run until both orders
+// of each broadcast relative to the other were observed (or a cap is hit).
+// Afterwards GC runs on every shard. Oracle: as everywhere in C08 – if the
+// lock was accepted, the object stays retrievable and locked.
+func TestC08RaceWindow(t *testing.T) {
+	rec := ev.New("C08", "racewindow")
+	defer rec.Flush()
+	k, n := ev.Shard()
+	type combo struct {
+		n      int
+		sched  string
+		holder int
+		add    []int
+	}
+	var combos []combo
+	for _, ns := range []int{2, 3} {
+		if ns == 3 && !ev.Thorough() {
+			continue
+		}
+		perms := [][]int{{0, 1}, {1, 0}}
+		if ns == 3 {
+			perms = [][]int{{0, 1, 2}, {0, 2, 1}, {1, 0, 2}, {1, 2, 0}, {2, 0, 1}, {2, 1, 0}}
+		}
+		for _, sc := range schedules(ns+1, ns+1) {
+			for h := 0; h < ns; h++ {
+				for _, p := range perms {
+					combos = append(combos, combo{ns, sc, h, p})
+				}
+			}
+		}
+	}
+	maxTries := 40
+	if ev.Thorough() {
+		maxTries = 120
+	}
+	covered := map[string]bool{}
+	for ci, c := range combos {
+		if ci%n != k {
+			continue
+		}
+		h := hist{N: c.n, AddOrder: c.add}
+		// shard hashes: the object (o0, id bytes 00…) lands on the shard whose hash is closest in HRW terms;
+		// choose hashes and verify the placement after the first replay.
+		for s := 0; s < c.n; s++ {
+			h.Hashes = append(h.Hashes, uint64(s+1)*0x1111111111111111)
+		}
+		for i := 0; i < nObj+nLock+nTomb; i++ {
+			sp := uni.Spec{Kind: uni.Regular, Cnr: cnrIdx, ID: i, Exp: -1, Parent: -1, ParentExp: -1, First: -1, PayloadLen: 7}
+			if i >= nObj && i < nObj+nLock {
+				sp.Kind, sp.PayloadLen = uni.Lock, 0
+			} else if i >= nObj+nLock {
+				sp.Kind, sp.PayloadLen, sp.Exp = uni.Tombstone, 0, 9
+			}
+			h.Objs = append(h.Objs, sp)
+		}
+		// the holder is selected by making every other shard fail puts during the object's put
+		for s := 0; s < c.n; s++ {
+			if s != c.holder {
+				h.Ops = append(h.Ops, op{K: "failput", Shard: s, On: true})
+			}
+		}
+		h.Ops = append(h.Ops, op{K: "put", ID: 0})
+		for s := 0; s < c.n; s++ {
+			if s != c.holder {
+				h.Ops = append(h.Ops, op{K: "failput", Shard: s, On: false})
+			}
+		}
+		raceAt := len(h.Ops)
+		h.Ops = append(h.Ops, op{K: "race", ID: nObj, ID2: nObj + nLock, Sched: c.sched})
+		for s := 0; s < c.n; s++ {
+			h.Ops = append(h.Ops, op{K: "gc", Shard: s})
+		}
+		seen := map[string]bool{}
+		labels := map[string]bool{}
+		for try := 0; try < maxTries; try++ {
+			r, err := replay(h)
+			if err != nil {
+				ev.Inconclusive("C08 engine setup: %v", err)
+			}
+			for l := range r.labels {
+				labels[l] = true
+			}
+			seen[r.races[raceAt]] = true
+			covered[fmt.Sprintf("%d|%s|%d|%v|%s", c.n, c.sched, c.holder, c.add, r.races[raceAt])] = true
+			if r.viol != nil {
+				if r.viol.fp != "" && rec.Known(r.viol.fp) {
+					rec.Excluded(1)
+					labels["known:"+r.viol.fp] = true
+					break
+				}
+				t.Fatalf("C08 violated [class %s]: %s\nhistory:\n%strace of the failing replay:\n  %s",
+					r.viol.fp, r.viol.msg, h, strings.Join(r.trace, "\n  "))
+			}
+			if len(seen) >= 4 && try >= 8 {
+				break
+			}
+		}
+		ls := []string{fmt.Sprintf("distinct-write-sequences=%d", min(len(seen), 6))}
+		for l := range labels {
+			if strings.HasPrefix(l, "race") || strings.HasPrefix(l, "known") {
+				ls = append(ls, l)
+			}
+		}
+		sort.Strings(ls)
+		fpr := fmt.Sprintf("%d %s holder=%d add=%v", c.n, c.sched, c.holder, c.add)
+		rec.Case(len(seen) >= 2, fpr, ls...)
+		if rec.WantSample() {
+			rec.Sample(map[string]any{"combo": fpr, "write_sequences": keys(seen)})
+		}
+	}
+	rec.Set("racewindow_distinct_schedule_order_combinations", len(covered))
+	rec.Set("exhaustive_schedules", true)
+}
+
+func keys(m map[string]bool) []string {
+	r := make([]string, 0, len(m))
+	for k := range m {
+		r = append(r, k)
+	}
+	sort.Strings(r)
+	return r
 }
